@@ -16,7 +16,8 @@ from ..seams import faults as F
 
 STR_POOLS = [['a', 'b', 'ab', 'abc', 'B', 'é', 'zz'], ['a', 'a ', 'a!', 'a/', 'a0', 'aa', 'a~'], ['x', 'xy', 'xyz', 'x ', 'x-'], ['é', 'e', 'ë', 'z', 'Z', '\U0001F600', 'זה'], ['k1', 'k10', 'k2', 'k']]
 NUM_POOLS = [[0, 1, -1, 2, 10, -10, 100], [0.5, -0.5, 1.25, -1.25, 0.0, 2.0], [1e10, -1e10, 1e-5, -1e-5, 3.0, -3.0], [1e300, -1e300, -1e232, 1e200, -1e200, 5.0],
-             [decimal.Decimal('1.5'), decimal.Decimal('-2.25'), decimal.Decimal('100'), decimal.Decimal('0.001'), 7, -7.5], [2**40, -2**40, 2**52, 12345, -12345], [0, 0.0, -0.0, 1, -1]]
+             [decimal.Decimal('1.5'), decimal.Decimal('-2.25'), decimal.Decimal('100'), decimal.Decimal('0.001'), 7, -7.5], [2**40, -2**40, 2**52, 12345, -12345], [0, 0.0, -0.0, 1, -1],
+             [1, 1.0, decimal.Decimal('1.00'), 2, 2.0, decimal.Decimal('2.50'), 2.5, -2, -2.0, decimal.Decimal('-2.00')]]
 
 
 def _run(payload, sub):
@@ -91,7 +92,7 @@ class C12(Prop):
             'resource passing by. Non-trivial = at least two rows share a key and at least two differ; distinct = distinct (key form, value pools, reverse, knobs, size).')
     ASSUMPTIONS = ['numeric key values are distinct in double precision (the encoding\'s stated domain) and key fields are non-null', 'multi-field keys put numeric fields before text so that the order does not depend on the particular order-preserving number encoding']
     REAL_VS_STUB = {'real': ['dataflows sort_rows', 'kvfile + sqlite ordering'], 'stub': ['KVFile twin: cache-size knob and operation counter']}
-    PROBES = ['reverse', 'spill-path', 'prefix-strings-below-0', 'negative-zero', 'huge-negative', 'decimal-values', 'callable-key', 'format-string-key', 'field-list-key', 'two-field-key', 'ties', 'other-resource', 'rows>10240']
+    PROBES = ['reverse', 'spill-path', 'prefix-strings-below-0', 'negative-zero', 'huge-negative', 'decimal-values', 'callable-key', 'format-string-key', 'field-list-key', 'two-field-key', 'ties', 'other-resource', 'rows>10240', 'equal-numbers-different-spelling']
     TIERS = {'quick': dict(runs=1500, wall=100, run_wall=120),
              'thorough': dict(runs=40000, wall=1700, run_wall=600)}
     SHRINK_FROZEN = ('fields',)
@@ -187,6 +188,12 @@ class C12(Prop):
                     ctx.probe('huge-negative')
                 if isinstance(v, decimal.Decimal):
                     ctx.probe('decimal-values')
+        for c in ('n', 'm'):
+            sp = {}
+            for r in rows:
+                sp.setdefault(float(r[c]), set()).add(repr(r[c]))
+            if any(len(x) > 1 for x in sp.values()):
+                ctx.probe('equal-numbers-different-spelling')
 
 
 PROP = C12()
